@@ -162,21 +162,29 @@ Definition ren (m : list (string * string)) (x : string) : string :=
   match ren_lookup x m with Some y => y | None => x end.
 
 (* targets of non-identity pairs are fresh for [e]; the renaming is injective on the names it moves *)
-Definition good (m : list (string * string)) (e : expr) : Prop :=
+(* names the backend gives no meaning to as function names (lambda parameters and the library's
+   fresh names are of this kind in every real backend) *)
+Definition builtin_op (x : string) : bool :=
+  existsb (String.eqb x) ["Select"; "Where"; "SelectMany"; "First"; "Count"; "len"; "Sum"; "Max"; "Min"; "Aggregate"].
+
+Definition nofun (B : backend) (x : string) : Prop :=
+  builtin_op x = false /\ forall vs kws, fun_sem B x vs kws = None.
+
+Definition good (B : backend) (m : list (string * string)) (e : expr) : Prop :=
   (forall x y, ren_lookup x m = Some y -> y <> x -> mentions y e = false) /\
   (forall x1 x2 y, ren_lookup x1 m = Some y -> ren_lookup x2 m = Some y -> y <> x1 -> y <> x2 -> x1 = x2) /\
-  (forall x y, ren_lookup x m = Some y -> y <> x -> is_callee x e = false).
+  (forall x y, ren_lookup x m = Some y -> y <> x -> is_callee x e = false \/ nofun B x).
 
 Definition rel (m : list (string * string)) (e : expr) (E E' : env) : Prop :=
   forall z, occurs z e = true -> lookup z E = lookup (ren m z) E'.
 
-Lemma good_child m e c : In c (children e) -> good m e -> good m c.
+Lemma good_child B m e c : In c (children e) -> good B m e -> good B m c.
 Proof.
   intros Hin (G1 & G2 & G3). split; [|split; [exact G2|]].
   - intros x y Hx Hy. specialize (G1 x y Hx Hy).
     destruct (mentions y c) eqn:E; [|reflexivity]. rewrite (mentions_child y e c Hin E) in G1. discriminate.
-  - intros x y Hx Hy. specialize (G3 x y Hx Hy).
-    destruct (is_callee x c) eqn:E; [|reflexivity]. rewrite (is_callee_child x e c Hin E) in G3. discriminate.
+  - intros x y Hx Hy. destruct (G3 x y Hx Hy) as [G3'|G3']; [|right; exact G3'].
+    left. destruct (is_callee x c) eqn:E; [|reflexivity]. rewrite (is_callee_child x e c Hin E) in G3'. discriminate.
 Qed.
 
 Lemma rel_child m e c E E' : In c (children e) -> rel m e E E' -> rel m c E E'.
@@ -202,7 +210,7 @@ Lemma ren_idmap_app x ps m :
   ren (idmap ps ++ m) x = if existsb (String.eqb x) ps then x else ren m x.
 Proof. unfold ren. rewrite ren_lookup_app, ren_lookup_idmap. destruct (existsb (String.eqb x) ps); reflexivity. Qed.
 
-Lemma good_under m ps b : good m (Lambda ps b) -> good (idmap ps ++ m) b.
+Lemma good_under B m ps b : good B m (Lambda ps b) -> good B (idmap ps ++ m) b.
 Proof.
   intros (G1 & G2 & G3). split; [|split].
   - intros x y Hx Hy. rewrite ren_lookup_app, ren_lookup_idmap in Hx.
@@ -218,8 +226,8 @@ Proof.
 Qed.
 
 (* a moved name is never sent onto a parameter of a lambda of [e] *)
-Lemma ren_not_param m ps b z :
-  good m (Lambda ps b) -> existsb (String.eqb z) ps = false -> existsb (String.eqb (ren m z)) ps = false.
+Lemma ren_not_param B m ps b z :
+  good B m (Lambda ps b) -> existsb (String.eqb z) ps = false -> existsb (String.eqb (ren m z)) ps = false.
 Proof.
   intros (G1 & _ & _) Hz. unfold ren. destruct (ren_lookup z m) as [y|] eqn:E; [|assumption].
   destruct (String.eqb y z) eqn:Eyz; [apply String.eqb_eq in Eyz; subst; assumption|].
@@ -241,8 +249,8 @@ Proof.
   destruct (String.eqb x a); [reflexivity|]. simpl in H. apply IH; assumption.
 Qed.
 
-Lemma rel_under m ps b E0 E E' :
-  good m (Lambda ps b) -> (forall z, existsb (String.eqb z) (map fst E0) = existsb (String.eqb z) ps) ->
+Lemma rel_under B m ps b E0 E E' :
+  good B m (Lambda ps b) -> (forall z, existsb (String.eqb z) (map fst E0) = existsb (String.eqb z) ps) ->
   rel m (Lambda ps b) E E' ->
   rel (idmap ps ++ m) b (E0 ++ E) (E0 ++ E').
 Proof.
@@ -259,11 +267,11 @@ Section Ren.
   Notation ev := (eval B ops).
 
   Definition ren_ok (e : expr) : Prop :=
-    forall m E E', good m e -> rel m e E E' -> refines (ev E e) (ev E' (rename m e)).
+    forall m E E', good B m e -> rel m e E E' -> refines (ev E e) (ev E' (rename m e)).
 
   Lemma evals_ren n l m E E' :
     (forall e0, size e0 < n -> ren_ok e0) -> sizes l < n ->
-    (forall c, In c l -> good m c /\ rel m c E E') ->
+    (forall c, In c l -> good B m c /\ rel m c E E') ->
     Forall2 (fun a a' => refines (ev E a) (ev E' a')) l (map (rename m) l).
   Proof.
     intros IH Hn Hc. induction l as [|a l IHl]; simpl; constructor.
@@ -273,7 +281,7 @@ Section Ren.
 
   Lemma omap_ren n l m E E' :
     (forall e0, size e0 < n -> ren_ok e0) -> sizes l < n ->
-    (forall c, In c l -> good m c /\ rel m c E E') ->
+    (forall c, In c l -> good B m c /\ rel m c E E') ->
     refines (omap (ev E) l) (omap (ev E') (map (rename m) l)).
   Proof. intros. apply omap_refines2. eapply evals_ren; eassumption. Qed.
 
@@ -292,25 +300,25 @@ Section Ren.
   Qed.
 
   Lemma view_ren n a m E E' :
-    (forall e0, size e0 < n -> ren_ok e0) -> size a < n -> good m a -> rel m a E E' ->
+    (forall e0, size e0 < n -> ren_ok e0) -> size a < n -> good B m a -> rel m a E E' ->
     aview_refines (view B ops E a) (view B ops E' (rename m a)).
   Proof.
     intros IH Hn Hg Hr. unfold view, mk_view. split; [|split]; cbn [av_val av_f1 av_f2].
     - apply IH; assumption.
     - intros f Hf. destruct a; try discriminate. destruct ps as [|x [|? ?]]; try discriminate.
       inversion Hf; subst; clear Hf. cbn [rename]. eexists; split; [reflexivity|]. intros v.
-      apply IH; [simpl in Hn; lia | apply (good_under m [x] a Hg) |].
-      apply (rel_under m [x] a [(x, v)] E E' Hg); [reflexivity | exact Hr].
+      apply IH; [simpl in Hn; lia | apply (good_under B m [x] a Hg) |].
+      apply (rel_under B m [x] a [(x, v)] E E' Hg); [reflexivity | exact Hr].
     - intros f Hf. destruct a; try discriminate. destruct ps as [|x [|y [|? ?]]]; try discriminate.
       inversion Hf; subst; clear Hf. cbn [rename]. eexists; split; [reflexivity|]. intros v w.
-      apply IH; [simpl in Hn; lia | apply (good_under m [x; y] a Hg) |].
-      apply (rel_under m [x; y] a [(y, w); (x, v)] E E' Hg); [|exact Hr].
+      apply IH; [simpl in Hn; lia | apply (good_under B m [x; y] a Hg) |].
+      apply (rel_under B m [x; y] a [(y, w); (x, v)] E E' Hg); [|exact Hr].
       intros z. simpl. rewrite !orb_false_r. apply orb_comm.
   Qed.
 
   Lemma views_ren n l m E E' :
     (forall e0, size e0 < n -> ren_ok e0) -> sizes l < n ->
-    (forall c, In c l -> good m c /\ rel m c E E') ->
+    (forall c, In c l -> good B m c /\ rel m c E E') ->
     Forall2 aview_refines (map (view B ops E) l) (map (view B ops E') (map (rename m) l)).
   Proof.
     intros IH Hn Hc. induction l as [|a l IHl]; simpl; constructor.
@@ -324,18 +332,35 @@ Section RenMain.
   Variable ops : list string.
   Notation ev := (eval B ops).
 
-  Lemma ren_unmoved_callee m op e args kwn kwv :
-    good m (Call (Name op) args kwn kwv) -> e = Call (Name op) args kwn kwv -> ren m op = op.
+  (* the callee name of a call is not moved, or the backend gives it no meaning *)
+  Lemma callee_cases m op args kwn kwv :
+    good B m (Call (Name op) args kwn kwv) -> ren m op = op \/ nofun B op.
   Proof.
-    intros (_ & _ & G3) ->. unfold ren. destruct (ren_lookup op m) as [y|] eqn:E; [|reflexivity].
-    destruct (String.eqb y op) eqn:Ey; [apply String.eqb_eq in Ey; assumption|].
+    intros (_ & _ & G3). unfold ren. destruct (ren_lookup op m) as [y|] eqn:E; [|left; reflexivity].
+    destruct (String.eqb y op) eqn:Ey; [apply String.eqb_eq in Ey; left; assumption|].
     assert (Hy : y <> op) by (intros ->; rewrite String.eqb_refl in Ey; discriminate).
-    specialize (G3 op y E Hy). cbn [is_callee] in G3. rewrite String.eqb_refl in G3. discriminate.
+    destruct (G3 op y E Hy) as [G|G]; [|right; exact G].
+    cbn [is_callee] in G. rewrite String.eqb_refl in G. discriminate.
+  Qed.
+
+  Lemma nofun_call_none op args kwn kwv E0 :
+    nofun B op -> ev E0 (Call (Name op) args kwn kwv) = None.
+  Proof.
+    intros [Hb Hf]. cbn [eval]. destruct kwn as [|k kwn].
+    - destruct args as [|s rest]; [apply Hf|].
+      unfold apply_op. unfold builtin_op in Hb. cbn [existsb] in Hb.
+      repeat (apply orb_false_iff in Hb; destruct Hb as [?H Hb]).
+      repeat match goal with H : String.eqb op _ = false |- _ => rewrite H; clear H end. cbn [orb].
+      destruct (ev E0 s) as [sv|]; [|reflexivity]. cbn [obind].
+      destruct (sequence (map av_val (map (mk_view (eval B ops) E0) rest))) as [vs|]; [|reflexivity]. cbn [obind]. apply Hf.
+    - destruct (omap (ev E0) args) as [vs|]; [|reflexivity]. cbn [obind].
+      destruct (omap (ev E0) kwv) as [kvs|]; [|reflexivity]. cbn [obind].
+      destruct (zip_kw (k :: kwn) kvs) as [kws|]; [|reflexivity]. cbn [obind]. apply Hf.
   Qed.
 
   Lemma comp_ren n elt gs m E E' :
     (forall e0, size e0 < n -> ren_ok B ops e0) -> size elt + sizes gs < n ->
-    (forall c, In c (elt :: gs) -> good m c /\ rel m c E E') ->
+    (forall c, In c (elt :: gs) -> good B m c /\ rel m c E E') ->
     refines (comp_sem ev E elt gs) (comp_sem ev E' (rename m elt) (map (rename m) gs)).
   Proof.
     intros IH Hn Hc. unfold comp_sem.
@@ -353,7 +378,7 @@ Section RenMain.
     cbn [sizes] in Hn. rewrite (size_sizes (CompFor _ _ _ _)) in Hn. cbn [children sizes] in Hn.
     destruct (Hc (CompFor (Name id) g2 ifs false)) as [Hgg Hrg]; [right; left; reflexivity|].
     destruct (Hc elt) as [Hge Hre]; [left; reflexivity|].
-    assert (Hit : good m g2 /\ rel m g2 E E').
+    assert (Hit : good B m g2 /\ rel m g2 E E').
     { split; [eapply good_child; [|exact Hgg] | eapply rel_child; [|exact Hrg]]; simpl; auto. }
     assert (Hinj : forall z, z <> id -> occurs z (CompFor (Name id) g2 ifs false) = true \/ occurs z elt = true ->
                              ren m z <> ren m id).
@@ -410,7 +435,7 @@ Section RenAll.
   Variable ops : list string.
   Notation ev := (eval B ops).
 
-  Lemma children_gr m e E E' c : good m e -> rel m e E E' -> In c (children e) -> good m c /\ rel m c E E'.
+  Lemma children_gr m e E E' c : good B m e -> rel m e E E' -> In c (children e) -> good B m c /\ rel m c E E'.
   Proof. intros Hg Hr Hin. split; [eapply good_child | eapply rel_child]; eassumption. Qed.
 
   Theorem ren_ok_all : forall n e, size e < n -> ren_ok B ops e.
@@ -419,7 +444,7 @@ Section RenAll.
     assert (IH : forall e0, size e0 < size e -> ren_ok B ops e0) by (intros; apply IHn; lia).
     clear IHn Hn. intros m E E' Hg Hr.
     pose proof (size_sizes e) as Hsz.
-    assert (Hch : forall c, In c (children e) -> good m c /\ rel m c E E') by (intros; eapply children_gr; eassumption).
+    assert (Hch : forall c, In c (children e) -> good B m c /\ rel m c E E') by (intros; eapply children_gr; eassumption).
     destruct e; cbn [children sizes] in Hsz; cbn [rename map_children_t]; try apply refines_refl.
     - (* Name *)
       cbn [eval]. apply refines_eq. fold (ren m id).
@@ -430,9 +455,9 @@ Section RenAll.
       cbn [eval]. apply obind_refines_l. destruct (Hch e (or_introl eq_refl)). apply IH; [lia | assumption | assumption].
     - (* Call *)
       rewrite sizes_app in Hsz.
-      assert (Hargs : forall c, In c args -> good m c /\ rel m c E E').
+      assert (Hargs : forall c, In c args -> good B m c /\ rel m c E E').
       { intros c Hc. apply Hch. right. apply in_or_app; left; assumption. }
-      assert (Hkwv : forall c, In c kwv -> good m c /\ rel m c E E').
+      assert (Hkwv : forall c, In c kwv -> good B m c /\ rel m c E E').
       { intros c Hc. apply Hch. right. apply in_or_app; right; assumption. }
       destruct (Hch e (or_introl eq_refl)) as [Hgf Hrf].
       assert (Ra : refines (omap (ev E) args) (omap (ev E') (map (rename m) args))).
@@ -443,7 +468,9 @@ Section RenAll.
         try (destruct kwn; [apply refines_refl |
                             intros v0 H0; repeat (apply obind_some in H0; destruct H0 as [? [? H0]]); discriminate]).
       + (* callee is a name: it is not moved *)
-        pose proof (ren_unmoved_callee m id _ args kwn kwv Hg eq_refl) as Hid.
+        destruct (callee_cases B m id args kwn kwv Hg) as [Hid|Hnf];
+          [|intros v0 H0; change (eval B ops E (Call (Name id) args kwn kwv) = Some v0) in H0;
+            rewrite (nofun_call_none B ops id args kwn kwv E Hnf) in H0; discriminate].
         replace (match ren_lookup id m with Some y => Name y | None => Name id end) with (Name id)
           by (unfold ren in Hid; destruct (ren_lookup id m); congruence).
         destruct kwn as [|k kwn].
@@ -456,7 +483,7 @@ Section RenAll.
           apply obind_refines; [assumption|]. intros kvs. apply refines_refl.
       + (* method call *)
         assert (Hsa : size (Attr e a) = S (size e)) by reflexivity.
-        assert (Hv : good m e /\ rel m e E E').
+        assert (Hv : good B m e /\ rel m e E E').
         { split; [eapply good_child; [|exact Hgf] | eapply rel_child; [|exact Hrf]]; simpl; auto. }
         destruct kwn as [|k kwn].
         * destruct (is_op ops a).
@@ -475,15 +502,15 @@ Section RenAll.
         destruct kwn as [|k kwn].
         * apply obind_refines; [assumption|]. intros vs.
           intros v Hv0. apply obind_some in Hv0. destruct Hv0 as [E0 [Hb Hv0]]. rewrite Hb. cbn [obind].
-          refine (IH e _ (idmap ps ++ m) (E0 ++ E) (E0 ++ E') (good_under m ps e Hgf) _ v Hv0); [cbn [sizes] in Hsz; lia|].
-          apply (rel_under m ps e E0 E E' Hgf); [|exact Hrf].
+          refine (IH e _ (idmap ps ++ m) (E0 ++ E) (E0 ++ E') (good_under B m ps e Hgf) _ v Hv0); [cbn [sizes] in Hsz; lia|].
+          apply (rel_under B m ps e E0 E E' Hgf); [|exact Hrf].
           intros z. rewrite (bind_args_dom _ _ _ _ Hb). reflexivity.
         * apply obind_refines; [assumption|]. intros vs.
           apply obind_refines; [assumption|]. intros kvs.
           apply obind_refines_r. intros kws.
           intros v Hv0. apply obind_some in Hv0. destruct Hv0 as [E0 [Hb Hv0]]. rewrite Hb. cbn [obind].
-          refine (IH e _ (idmap ps ++ m) (E0 ++ E) (E0 ++ E') (good_under m ps e Hgf) _ v Hv0); [cbn [sizes] in Hsz; lia|].
-          apply (rel_under m ps e E0 E E' Hgf); [|exact Hrf].
+          refine (IH e _ (idmap ps ++ m) (E0 ++ E) (E0 ++ E') (good_under B m ps e Hgf) _ v Hv0); [cbn [sizes] in Hsz; lia|].
+          apply (rel_under B m ps e E0 E E' Hgf); [|exact Hrf].
           intros z. rewrite (bind_args_dom _ _ _ _ Hb). reflexivity.
     - (* UnaryOp *) cbn [eval]. apply obind_refines_l. destruct (Hch e (or_introl eq_refl)). apply IH; [lia | assumption | assumption].
     - (* BinOp *)
@@ -521,13 +548,13 @@ Section RenAll.
 End RenAll.
 
 Theorem rename_refines B ops m e E E' :
-  good m e -> rel m e E E' -> refines (eval B ops E e) (eval B ops E' (rename m e)).
+  good B m e -> rel m e E E' -> refines (eval B ops E e) (eval B ops E' (rename m e)).
 Proof. intros Hg Hr. eapply ren_ok_all; [apply Nat.lt_succ_diag_r | exact Hg | exact Hr]. Qed.
 
 (* ---------- make_args_unique on a one-parameter lambda (the operator lambdas) ---------- *)
 
-Lemma good_single x x' b :
-  (x' <> x -> mentions x' b = false /\ is_callee x b = false) -> good [(x, x')] b.
+Lemma good_single B x x' b :
+  (x' <> x -> mentions x' b = false /\ (is_callee x b = false \/ nofun B x)) -> good B [(x, x')] b.
 Proof.
   intros H. split; [|split].
   - intros z y Hz Hy. simpl in Hz. destruct (String.eqb z x) eqn:E; [|discriminate]. inversion Hz; subst.
@@ -540,7 +567,7 @@ Proof.
 Qed.
 
 Theorem rename_param_sound B ops x x' b v E :
-  (x' <> x -> mentions x' b = false /\ is_callee x b = false) ->
+  (x' <> x -> mentions x' b = false /\ (is_callee x b = false \/ nofun B x)) ->
   refines (eval B ops ((x, v) :: E) b) (eval B ops ((x', v) :: E) (rename [(x, x')] b)).
 Proof.
   intros H. apply rename_refines; [apply good_single; assumption|].
@@ -555,7 +582,7 @@ Qed.
 
 (* make_args_unique itself, on a one-parameter lambda: the renamed lambda is the same function *)
 Theorem make_args_unique_sound1 B ops x b c v E :
-  mentions (arg_name c) b = false -> is_callee x b = false ->
+  mentions (arg_name c) b = false -> is_callee x b = false \/ nofun B x ->
   match make_args_unique [x] b c with
   | (Lambda [x'] b', _) => refines (eval B ops ((x, v) :: E) b) (eval B ops ((x', v) :: E) b')
   | _ => False
